@@ -27,7 +27,7 @@ VS = "gpytorch.variational.variational_strategy.VariationalStrategy"
 VD = "gpytorch.variational"
 
 
-@case("C14", clause="whitened_forward", expand=lambda ix: [(br, has_cov, trace) for br in (0, 1) for has_cov in (True, False) for trace in (False, True)], replay=lambda *a: replay_c14(*a),
+@case("C14", clause="whitened_forward", expand=lambda ix: [(br, has_cov, trace) for br in (0, 1) for has_cov in (True, False) for trace in (False, True)], replay=lambda *a: replay_whitened(*a),
       functions=[f"{VS}.forward", f"{VS}.prior_distribution"], timeout=600)
 def whitened_forward(c, br, has_cov, trace):
     it, ctx = c.it, c.ctx
@@ -47,7 +47,7 @@ def whitened_forward(c, br, has_cov, trace):
     vdist = Stub("variational_distribution_module", attrs={"dtype": None, "device": None}, methods={"shape": lambda: size_tuple(bs + [m.t])})
     from engine.values import VAtom
     vdist.attrs["dtype"], vdist.attrs["device"] = VAtom("torch.double"), VAtom("device:cpu")
-    o = module_obj(c, VS, "strategy", jitter_val=jit, _variational_distribution=vdist)
+    o = module_obj(c, VS, "strategy", _jitter_val=jit, _variational_distribution=vdist)
     o.fields["model"] = model
 
     def hook(it_, ctx_, fi, args, kwargs):
@@ -84,7 +84,13 @@ def whitened_forward(c, br, has_cov, trace):
     c.prove("forward.returns_MultivariateNormal", z3.BoolVal(okr))
     if not okr:
         return
-    mean, cov = res.fields["loc"], res.fields["_covar"]
+    mean = res.fields["loc"]
+    cov = res.fields.get("_covar")
+    if cov is None:  # trace mode: a dense covariance tensor handed to the base class
+        cov = res.fields.get("covariance_matrix")
+    if cov is None:
+        c.fail("forward.covariance_present", f"fields {sorted(res.fields)}")
+        return
     c.prove("forward.mean", z3.And(z3.BoolVal(len(mean.dims) == br + 1), mean.dims[-1].size == n.t,
                                    mean.at_dims(b + [i]) == mu.at(b + [m.t + i]) + mk_sum(lambda r: A.at(b + [r, i]) * mt.at(b + [r]), m.t)) if len(mean.dims) == br + 1 else z3.BoolVal(False))
     # covariance: Kxx + jitter I + A^T (S~ - I) A, stated in the documented product order  A^T @ ((S~ - I) @ A)
@@ -92,7 +98,17 @@ def whitened_forward(c, br, has_cov, trace):
         if has_cov:
             return mk_sum(lambda s_: (St.at(b + [r, s_]) - z3.If(r == s_, z3.RealVal(1), z3.RealVal(0))) * A.at(b + [s_, col]), m.t)
         return mk_sum(lambda s_: (-z3.If(r == s_, z3.RealVal(1), z3.RealVal(0))) * A.at(b + [s_, col]), m.t)
-    want = Sig.at(b + [m.t + i, m.t + j]) + z3.If(i == j, jit.t, 0) + mk_sum(lambda r: A.at(b + [r, i]) * mid(r, j), m.t)
+    if trace:
+        # trace mode evaluates the same triple product as (A^T (S~ - I)) A; the two associations are equal by exchanging the two finite sums
+        # (Fubini for finite sums -- stated here in the association each branch computes)
+        def midT(col, s_):
+            if has_cov:
+                return mk_sum(lambda r: A.at(b + [r, col]) * (St.at(b + [r, s_]) - z3.If(r == s_, z3.RealVal(1), z3.RealVal(0))), m.t)
+            return mk_sum(lambda r: A.at(b + [r, col]) * (-z3.If(r == s_, z3.RealVal(1), z3.RealVal(0))), m.t)
+        quad = mk_sum(lambda s_: midT(i, s_) * A.at(b + [s_, j]), m.t)
+    else:
+        quad = mk_sum(lambda r: A.at(b + [r, i]) * mid(r, j), m.t)
+    want = Sig.at(b + [m.t + i, m.t + j]) + z3.If(i == j, jit.t, 0) + quad
     c.prove("forward.covariance_shape", z3.And(z3.BoolVal(len(cov.dims) == br + 2), cov.dims[-1].size == n.t, cov.dims[-2].size == n.t) if len(cov.dims) == br + 2 else z3.BoolVal(False))
     if len(cov.dims) == br + 2:
         c.prove("forward.covariance", cov.at_dims(b + [i, j]) == want)
@@ -166,7 +182,7 @@ def variational_distributions(c, kind, br):
     loc, cov = res.fields["loc"], res.fields["_covar"]
     c.prove(f"{kind}.mean", loc.at_dims(b + [k]) == vm.at(b + [k]))
     if kind == "Cholesky":
-        tri = lambda r, s_: z3.If(s_ <= r, C.at(b + [r, s_]), z3.RealVal(0))  # noqa: E731
+        tri = lambda r, s_: C.at(b + [r, s_]) * z3.If(s_ - r <= 0, z3.RealVal(1), z3.RealVal(0))  # noqa: E731  (the lower-triangular mask as the code applies it)
         c.prove("Cholesky.covariance_is_tril(C) tril(C)^T", cov.at_dims(b + [k, l]) == mk_sum(lambda r: tri(k, r) * tri(l, r), m.t))
     else:
         c.prove("MeanField.covariance_is_diag(s^2)", cov.at_dims(b + [k, l]) == z3.If(k == l, sd.at(b + [k]) * sd.at(b + [k]), z3.RealVal(0)))
@@ -186,3 +202,47 @@ def replay_c14(model, params, clause, info):
     bad = [v for v in r["violations"] if not any(p.fullmatch("bounded:" + v["key"]) for p in pats)]
     return {"violates": bool(bad), "detail": "; ".join(f"{v['key']}: {v['detail']}" for v in bad[:5])[:700] or "variational closed forms hold on the real code",
             "entry": {"module": "contracts.C14_variational", "function": "replay_c14", "args": [model, list(params), clause, info]}}
+
+
+def replay_whitened(model, params, clause, info):
+    """real whitened SVGP with a NON-negligible jitter (0.3): q(f) against the closed form with that jitter written out"""
+    import torch
+    import gpytorch
+    br, has_cov, trace = params
+    torch.manual_seed(1)
+    m, n = 4, 5
+    Z = torch.rand(m, 1, dtype=torch.double)
+    X = torch.rand(n, 1, dtype=torch.double)
+    jit = 0.3
+
+    class SV(gpytorch.models.ApproximateGP):
+        def __init__(self):
+            vd = (gpytorch.variational.CholeskyVariationalDistribution if has_cov else gpytorch.variational.DeltaVariationalDistribution)(m)
+            super().__init__(gpytorch.variational.VariationalStrategy(self, Z, vd, learn_inducing_locations=False, jitter_val=jit))
+            self.mean_module, self.covar_module = gpytorch.means.ConstantMean(), gpytorch.kernels.RBFKernel()
+
+        def forward(self, x):
+            return gpytorch.distributions.MultivariateNormal(self.mean_module(x), self.covar_module(x))
+
+    g = SV().double()
+    g.mean_module.constant.data.fill_(0.4)
+    vd = g.variational_strategy._variational_distribution
+    with torch.no_grad():
+        vd.variational_mean.copy_(torch.randn(m, dtype=torch.double))
+        if has_cov:
+            vd.chol_variational_covar.copy_(torch.randn(m, m, dtype=torch.double).tril() + 2 * torch.eye(m, dtype=torch.double))
+        g.variational_strategy.variational_params_initialized.fill_(1)
+    g.eval()
+    with torch.no_grad(), gpytorch.settings.trace_mode(bool(trace)):
+        out = g(X)
+        Kzz = g.covar_module(Z).to_dense() + jit * torch.eye(m, dtype=torch.double)
+        Kzx, Kxx = g.covar_module(Z, X).to_dense(), g.covar_module(X).to_dense()
+        L = torch.linalg.cholesky(Kzz)
+        A = torch.linalg.solve_triangular(L, Kzx, upper=False)
+        mt = vd.variational_mean
+        S = (vd.chol_variational_covar.tril() @ vd.chol_variational_covar.tril().T) if has_cov else torch.zeros(m, m, dtype=torch.double)
+        mean = 0.4 + A.T @ mt
+        cov = Kxx + jit * torch.eye(n, dtype=torch.double) + A.T @ (S - torch.eye(m, dtype=torch.double)) @ A
+        bad = not (torch.allclose(out.mean, mean, atol=1e-8) and torch.allclose(out.covariance_matrix, cov, atol=1e-8))
+    return {"violates": bool(bad), "detail": f"whitened q(f) with jitter_val={jit}: max mean diff {(out.mean - mean).abs().max().item():.2e}, max covariance diff {(out.covariance_matrix - cov).abs().max().item():.2e}",
+            "entry": {"module": "contracts.C14_variational", "function": "replay_whitened", "args": [model, list(params), clause, info]}}
